@@ -14,6 +14,7 @@
 (*                                 directory) | "sub" | "up" (elsewhere);    *)
 (*                                 ds = req number of the sent data set the  *)
 (*                                 file's data set equals (0: none)          *)
+(*   store_rsp / echo_rsp {...}    a DIMSE response was received (projected) *)
 (*   end   {}                      end of the association's observation      *)
 (* C32: every file is directly in the output directory, holds a received     *)
 (* data set, its meta TS is the negotiated one and its media storage SOP     *)
@@ -24,32 +25,50 @@ EXTENDS Naturals, Sequences, TLC, Json, IOUtils
 
 Rec == ndJsonDeserialize(IOEnv.TRACE)
 
-VARIABLES l, ts, sent, cl, bad
-tvars == <<l, ts, sent, cl, bad>>
+VARIABLES l, ts, sent, cl, bad,
+          acked,   \* requests acknowledged with status Success
+          filed,   \* requests whose data set was found in a stored file
+          extra    \* beyond C32 (DIMSE conformance of the responses): lines of non-conforming events
+tvars == <<l, ts, sent, cl, bad, acked, filed, extra>>
 
-TInit == l = 1 /\ ts = "" /\ sent = <<>> /\ cl = 0 /\ bad = <<>> /\ TLCSet(1, 1) /\ TLCSet(2, <<>>)
+TInit == l = 1 /\ ts = "" /\ sent = <<>> /\ cl = 0 /\ bad = <<>> /\ acked = {} /\ filed = {} /\ extra = <<>>
+         /\ TLCSet(1, 1) /\ TLCSet(2, <<>>) /\ TLCSet(3, <<>>)
 Ev(e) == l <= Len(Rec) /\ Rec[l].ev = e /\ l' = l + 1
 R == Rec[l]
 Mark(ok) == bad' = IF ok \/ (bad # <<>> /\ bad[Len(bad)] = cl) \/ Len(bad) >= 300 THEN bad ELSE Append(bad, cl)
 
-TAssoc == Ev("assoc") /\ ts' = R.ts /\ sent' = <<>> /\ cl' = l /\ UNCHANGED bad
+Note(ok) == extra' = IF ok \/ Len(extra) >= 200 THEN extra ELSE Append(extra, l)
+TAssoc == Ev("assoc") /\ ts' = R.ts /\ sent' = <<>> /\ cl' = l /\ acked' = {} /\ filed' = {} /\ UNCHANGED <<bad, extra>>
 TStore == /\ Ev("store") /\ R.req = Len(sent) + 1
           /\ sent' = Append(sent, [cls |-> R.cls, inst |-> R.inst])
-          /\ UNCHANGED <<ts, cl, bad>>
+          /\ UNCHANGED <<ts, cl, bad, acked, filed, extra>>
 FileOk(f) == /\ f.where = "out"
              /\ f.readable
              /\ f.ds \in 1..Len(sent)
              /\ f.meta_ts = ts
              /\ f.meta_cls = sent[f.ds].cls
              /\ f.meta_inst = sent[f.ds].inst
-TFs == Ev("fs") /\ Mark(FileOk(R)) /\ UNCHANGED <<ts, sent, cl>>
-TEnd == Ev("end") /\ UNCHANGED <<ts, sent, cl, bad>>
+TFs == /\ Ev("fs") /\ Mark(FileOk(R))
+       /\ filed' = IF R.ds \in 1..Len(sent) THEN filed \cup {R.ds} ELSE filed
+       /\ UNCHANGED <<ts, sent, cl, acked, extra>>
+(* DIMSE (PS3.7) shape of the responses - specification growth beyond C32:    *)
+(* one command PDV on the request's presentation context, C-STORE-RSP (8001H) *)
+(* / C-ECHO-RSP (8030H), Message ID Being Responded To = the request's        *)
+(* Message ID, no data set (0101H).                                           *)
+RspOk(field) == /\ R.npdv = 1 /\ R.pc_ok /\ R.is_cmd /\ R.decoded
+                /\ R.field = field /\ R.msgid_resp = R.msgid /\ R.dstype = 257
+TStoreRsp == /\ Ev("store_rsp") /\ Note(RspOk(32769))
+             /\ acked' = IF R.status = 0 THEN acked \cup {R.req} ELSE acked
+             /\ UNCHANGED <<ts, sent, cl, bad, filed>>
+TEchoRsp == Ev("echo_rsp") /\ Note(RspOk(32816) /\ R.status = 0) /\ UNCHANGED <<ts, sent, cl, bad, acked, filed>>
+(* a request acknowledged with Success has been stored *)
+TEnd == Ev("end") /\ Note(acked \subseteq filed) /\ UNCHANGED <<ts, sent, cl, bad, acked, filed>>
 
-TNext == TAssoc \/ TStore \/ TFs \/ TEnd
+TNext == TAssoc \/ TStore \/ TFs \/ TStoreRsp \/ TEchoRsp \/ TEnd
 TSpec == TInit /\ [][TNext]_tvars
 Track == /\ TLCSet(1, IF l > TLCGet(1) THEN l ELSE TLCGet(1))
-         /\ (l = Len(Rec) + 1 => TLCSet(2, bad))
+         /\ (l = Len(Rec) + 1 => TLCSet(2, bad) /\ TLCSet(3, extra))
 Accepted == IF TLCGet(1) = Len(Rec) + 1
-            THEN PrintT(<<"BADCASES", ToJson(TLCGet(2))>>)
+            THEN PrintT(<<"BADCASES", ToJson(TLCGet(2))>>) /\ PrintT(<<"EXTRA", ToJson(TLCGet(3))>>)
             ELSE Print(<<"REJECTED", TLCGet(1), ToJson(Rec[TLCGet(1)])>>, FALSE)
 =============================================================================
